@@ -152,11 +152,11 @@ func witness(name string) (*field, bool) {
 		cy, _ := sdf.Cylinder3D(1, 0.25, 0.0625)
 		b := sdf.Transform3D(cy, sdf.Translate3d(v3.Vec{X: 1.25}))
 		return field3(sdf.RotateCopy3D(b, 7), "RotateCopy3(Transform3(Cylinder(1,0.25,0.0625)@(1.25,0,0)),7)"), true
-	case "union2-empty-operand": // box pruning of Union2D over an operand with an empty solid
-		c1, _ := sdf.Circle2D(1)
-		a := sdf.Intersect2D(sdf.Transform2D(c1, sdf.Translate2d(v2.Vec{X: -2})), sdf.Transform2D(c1, sdf.Translate2d(v2.Vec{X: 2})))
-		b := sdf.Transform2D(c1, sdf.Translate2d(v2.Vec{X: -10, Y: 10.5}))
-		return field2(sdf.Union2D(a, b), "Union2[MinDef](Intersect2[MaxDef](Circle(1)@(-2,0),Circle(1)@(2,0)),Circle(1)@(-10,10.5))"), true
+	case "union2-empty-operand": // box pruning of Union2D over an operand with an empty solid (the Coq witness of union2_prune_refuted)
+		b := sdf.Box2D(v2.Vec{X: 2, Y: 2}, 0)
+		a := sdf.Intersect2D(sdf.Transform2D(b, sdf.Translate2d(v2.Vec{X: -2})), sdf.Transform2D(b, sdf.Translate2d(v2.Vec{X: 2})))
+		c := sdf.Transform2D(b, sdf.Translate2d(v2.Vec{X: -10.5, Y: 11}))
+		return field2(sdf.Union2D(a, c), "Union2[MinDef](Intersect2[MaxDef](Box2D({2 2},0)@(-2,0),Box2D({2 2},0)@(2,0)),Box2D({2 2},0)@(-10.5,11))"), true
 	case "offset-two-boxes": // non-convex exact operand: two walls of a slot of half width 0.5
 		b := sdf.Box2D(v2.Vec{X: 1, Y: 20}, 0)
 		u := sdf.Union2D(sdf.Transform2D(b, sdf.Translate2d(v2.Vec{X: -1})), sdf.Transform2D(b, sdf.Translate2d(v2.Vec{X: 1})))
